@@ -5,6 +5,7 @@ package serf
 
 import (
 	"bufio"
+	"errors"
 	"fmt"
 	"io"
 	"log"
@@ -57,6 +58,11 @@ const (
 	// the snapshot size estimate (nodes * bytes per node) before compacting.
 	snapshotCompactionThreshold = 2
 )
+
+// errSnapshotNotOpen is returned when a previous failure (for example a
+// failed compaction) left us without an open snapshot file. The periodic
+// recovery compaction re-creates it.
+var errSnapshotNotOpen = errors.New("snapshot file is not open")
 
 // Snapshotter is responsible for ingesting events and persisting
 // them to disk, and providing a recovery mechanism at start time.
@@ -277,7 +283,7 @@ func (s *Snapshotter) stream() {
 				s.aliveNodes = make(map[string]string)
 			}
 			s.tryAppend("leave\n")
-			if err := s.buffered.Flush(); err != nil {
+			if err := s.flush(); err != nil {
 				s.logger.Printf("[ERR] serf: failed to flush leave to snapshot: %v", err)
 			}
 			if err := s.fh.Sync(); err != nil {
@@ -310,7 +316,7 @@ func (s *Snapshotter) stream() {
 				}
 			}
 
-			if err := s.buffered.Flush(); err != nil {
+			if err := s.flush(); err != nil {
 				s.logger.Printf("[ERR] serf: failed to flush snapshot: %v", err)
 			}
 			if err := s.fh.Sync(); err != nil {
@@ -397,6 +403,11 @@ func (s *Snapshotter) tryAppend(l string) {
 func (s *Snapshotter) appendLine(l string) error {
 	defer metrics.MeasureSinceWithLabels([]string{"serf", "snapshot", "appendLine"}, time.Now(), s.metricLabels)
 
+	// A failed compaction can leave us without an open snapshot file
+	if s.buffered == nil {
+		return errSnapshotNotOpen
+	}
+
 	n, err := s.buffered.WriteString(l)
 	if err != nil {
 		return err
@@ -406,7 +417,7 @@ func (s *Snapshotter) appendLine(l string) error {
 	now := time.Now()
 	if now.Sub(s.lastFlush) > flushInterval {
 		s.lastFlush = now
-		if err := s.buffered.Flush(); err != nil {
+		if err := s.flush(); err != nil {
 			return err
 		}
 	}
@@ -503,7 +514,7 @@ func (s *Snapshotter) compact() error {
 
 	// Flush the existing snapshot, ignoring errors since we will
 	// replace it momentarily.
-	_ = s.buffered.Flush()
+	_ = s.flush()
 	s.buffered = nil
 
 	// Close the file handle to the old snapshot
@@ -515,22 +526,39 @@ func (s *Snapshotter) compact() error {
 	// platforms), so there is no point in time at which a crash leaves us
 	// without any snapshot.
 	if err := os.Rename(newPath, s.path); err != nil {
+		// The old snapshot is still in place, keep appending to it
+		if rerr := s.reopen(); rerr != nil {
+			s.logger.Printf("[ERR] serf: failed to re-open snapshot: %v", rerr)
+		}
 		return fmt.Errorf("failed to install new snapshot: %v", err)
 	}
 
 	// Open the new snapshot
-	fh, err = os.OpenFile(s.path, os.O_RDWR|os.O_APPEND|os.O_CREATE, 0755)
-	if err != nil {
+	if err := s.reopen(); err != nil {
 		return fmt.Errorf("failed to open snapshot: %v", err)
 	}
-	buf = bufio.NewWriter(fh)
-
-	// Rotate our handles
-	s.fh = fh
-	s.buffered = buf
 	s.offset = offset
 	s.lastFlush = time.Now()
 	return nil
+}
+
+// reopen opens the snapshot file for appending and rotates our handles to it
+func (s *Snapshotter) reopen() error {
+	fh, err := os.OpenFile(s.path, os.O_RDWR|os.O_APPEND|os.O_CREATE, 0755)
+	if err != nil {
+		return err
+	}
+	s.fh = fh
+	s.buffered = bufio.NewWriter(fh)
+	return nil
+}
+
+// flush writes out any buffered data, if we have an open snapshot file
+func (s *Snapshotter) flush() error {
+	if s.buffered == nil {
+		return errSnapshotNotOpen
+	}
+	return s.buffered.Flush()
 }
 
 // replay is used to seek to reset our internal state by replaying
